@@ -113,6 +113,21 @@ EXPLORE = {
     "C08": "Metamorphic contract: single-query groundings, one shared target grounded query by query in random order and "
            "a reused prepared database must agree.",
 }
+EXPLORE.update({
+    "C09": "Translation validation of every instance: for each ground program of the family and every assignment to its "
+           "atoms, the least-model node values before and after cycle breaking agree, the Clark completion has exactly one "
+           "model extending the assignment and it carries the node values; constraints, weights and counts are carried over.",
+    "C10": "Validation of every compiled circuit: decomposability and smoothness node by node, determinism and model "
+           "equivalence with the CNF by exhaustive enumeration (<= 14 variables), labels and weights carried over; the "
+           "compiler is the external dsharp binary, so only per-instance validation is possible.",
+    "C25": "Metamorphic contract: the ProbLog text exported by to_prolog (with and without cycle breaking) re-evaluates to the "
+           "same probabilities; the DIMACS text has exactly the clauses and counts of the internal CNF. to_prolog has four "
+           "listed known failure modes; the DIMACS part holds.",
+    "C26": "Metamorphic contract: subquery/2 and subquery/3 called from a deterministic wrapper bind the probability that "
+           "top-level (conditional) inference reports.",
+    "C29": "Metamorphic contract: parent.extend() plus added clauses answers like preparing the union from scratch, and the "
+           "parent database answers as before the extension.",
+})
 for _pid, _text in EXPLORE.items():
     CLAIMS[_pid] = dict(category="exploration", text=_text + " Bounded stand-in only: labelled bounded, not proved.",
                         design_ref="DESIGN.md section 2, pipeline properties", technique=BOUNDED_TECH, note=BOUNDED_NOTE)
